@@ -16,7 +16,7 @@ func init() { register(&Check{ID: "C11", Run: runC11, ShardDepth: 2}) }
 
 const c11NoDate = int64(999)
 
-var c11Paths = []string{"fresh-hit", "max-stale", "only-if-cached-fresh", "only-if-cached-stale", "swr", "sie-500", "sie-error", "sie-req-max-age0", "sie-request-only-max-age0",
+var c11Paths = []string{"fresh-hit", "fresh-hit, stored no-cache names the cache's own fields", "max-stale", "only-if-cached-fresh", "only-if-cached-stale", "swr", "sie-500", "sie-error", "sie-req-max-age0", "sie-request-only-max-age0",
 	"revalidated", "validated-200", "validated-500", "miss", "head", "post", "range", "504", "no-cache-304", "heuristic-hit", "post-500", "delete-404", "head-503", "put-503"}
 
 func runC11(x *mc.X) {
@@ -44,6 +44,8 @@ func runC11(x *mc.X) {
 	store := true
 	switch path {
 	case "fresh-hit":
+	case "fresh-hit, stored no-cache names the cache's own fields": // such a list concerns STORED fields; what the cache adds itself stays
+		ccv = `max-age=100, no-cache="Set-Cookie, Age, X-Httpcache-Status, X-From-Cache"`
 	case "heuristic-hit":
 		ccv = ""
 		elapsedMenu = []int64{0, 10, 50}
@@ -125,13 +127,13 @@ func runC11(x *mc.X) {
 	answerFn(w, func(o *world.Origin, c *world.Call) (*http.Response, error) {
 		cond := c.Header.Get("If-None-Match") != "" || c.Header.Get("If-Modified-Since") != ""
 		if follow == "304-bg" && cond {
-			resp := o.Respond(c, RS{Status: 304, NoTok: true, H: poisonH(hdrIf(H("ETag", `"v1"`), "Age", age304)), Delay: secs(delay)}) // the 304 may come through an intermediary (Age) and take its time
+			resp := o.Respond(c, RS{Status: 304, NoTok: true, H: poisonH(hdrIf(H("ETag", `"v1"`), "Age", age304)), Delay: secs(delay), NoDate: noDate}) // the 304 may come through an intermediary (Age) and take its time
 			h304, c304 = resp.Header.Clone(), c
 			return resp, nil
 		}
 		switch {
 		case follow == "304" && cond:
-			resp := o.Respond(c, RS{Status: 304, NoTok: true, H: poisonH(hdrIf(H("ETag", `"v1"`), "Age", age304)), Delay: secs(delay)}) // the 304 may come through an intermediary (Age) and take its time
+			resp := o.Respond(c, RS{Status: 304, NoTok: true, H: poisonH(hdrIf(H("ETag", `"v1"`), "Age", age304)), Delay: secs(delay), NoDate: noDate}) // the 304 may come through an intermediary (Age) and take its time
 			h304, c304 = resp.Header.Clone(), c
 			return resp, nil
 		case follow == "500":
